@@ -572,6 +572,43 @@ def type_list_cases(run):
                         payload={"kind": "rerun"}, theorem="C17_order")
 
 
+def returned_name_lists(run):
+    """get_feature_names / compute_features(ret_names=True) hand out lists
+    that are the caller's: editing one in place does not change what the next
+    call returns"""
+    from nanite.rate.features import IndentationFeatures as IF
+    want = {w: list(IF.get_feature_names(which_type=w))
+            for w in ("all", "binary", "continuous")}
+    for w in ("all", "binary", "continuous"):
+        run.case({"returned-names": w}, kind="names-returned-list")
+        for edit in ("pop", "reverse", "append"):
+            r = IF.get_feature_names(which_type=w)
+            if edit == "append":
+                r.append("feat_con_not_a_feature")
+            else:
+                getattr(r, edit)()
+            bad = [w2 for w2 in want
+                   if list(IF.get_feature_names(which_type=w2)) != want[w2]]
+            try:
+                lst = list(IF.get_feature_names(which_type=[
+                    "continuous", "binary"]))
+            except BaseException as e:
+                lst = f"{type(e).__name__}: {e}"
+            if bad or lst != sorted(want["all"]):
+                run.failing(SITE, f"returned-names:{w}:{edit}",
+                            f"after the list returned by get_feature_names("
+                            f"{w!r}) was edited in place ({edit}), "
+                            f"get_feature_names returns other names for "
+                            f"{bad or ['a list of types']}",
+                            payload={"kind": "rerun"}, theorem="C17_order")
+                # restore for the rest of the run
+                for w2 in want:
+                    cur = IF.get_feature_names(which_type=w2)
+                    if list(cur) != want[w2]:
+                        cur[:] = want[w2]
+                break
+
+
 def breakthrough(run):
     """a curve whose force drops monotonically over the last quarter of the
     approach (breakthrough), fitted with the contact point held fixed inside
@@ -598,17 +635,25 @@ def check(run):
     common.prove(run, "C17", extra_targets=["Model/FeaturesQ.vo"])
     run.trusted = [
         "Coq 8.16.1 kernel + vm_compute; Reals axioms for the R theorems",
-        "coq/Model/Features.v (guards, name selection, arithmetic of the "
-        "filter-free features) tied by evaluating its exact rational instance "
-        "on the approach rows of every fitted curve and comparing with the "
-        "implementation's values (pre-images of c*log(1+v) to 1e-9), and by "
-        "comparing name selection on random requests",
+        "coq/Model/Features.v, FeaturesG.v, FeaturesG2.v (guards, name "
+        "selection, arithmetic of all fifteen features before the finishing "
+        "log) tied by evaluating the exact rational instance on the approach "
+        "rows of every fitted curve and comparing with the implementation's "
+        "values (pre-images of c*log(1+v) to 1e-9; least-squares slope to "
+        "1e-6), and by comparing name selection on random requests",
+        "harness observation of scipy.ndimage.gaussian_filter1d outputs and "
+        "numpy.std values inside the five filter-based features (handed to "
+        "the model as the oracles' answers)",
     ]
     run.assumptions = [
-        "scipy's gaussian filter, numpy's gradient and lstsq are oracles: the "
-        "features built on them are covered by the direct statements only "
-        "(bounds, NaN conventions, exact invariance under 2^k force factors, "
-        "retract independence)",
+        "scipy's gaussian filter and the square root inside numpy.std are "
+        "oracle parameters of the model; the filter-based theorems assume the "
+        "filter commutes with positive factors (checked bit for bit with "
+        "2^10 and 2^-7 on every array handed to it, obligation "
+        "'assumption:gaussian-filter-commutes-with-factors')",
+        "comparisons of the spike features that lie within 1e-9 of their "
+        "3-sigma threshold are not replayed exactly (rounding of the "
+        "subtraction in the implementation could decide them either way)",
         "log is monotone: the finishing maps are inverted numerically to "
         "obtain the interval the modelled core must lie in",
     ]
@@ -666,6 +711,7 @@ def check(run):
                     run.count("coq-arithmetic")
     breakthrough(run)
     tiny_indentation(run)
+    returned_name_lists(run)
     type_list_cases(run)
     gauss_assumption(run)
     fits.eval_bool_cases(run, "c17_feat", exprs, descr, head=HEAD, chunk=10)
